@@ -7,9 +7,9 @@ cd $WT || exit 1
 git diff -- src > $OUT/patch.diff
 [ -s $OUT/patch.diff ] || { echo "empty patch"; exit 1; }
 DEMO=$(ls demo_*.py | head -1); cp $DEMO $OUT/
-git stash -q -- src
+git checkout -q -- src   # (no git stash: the stash list is shared between worktrees)
 PYTHONPATH=$WT/src /venv/bin/python $DEMO > $OUT/demo_clean.out 2>&1; C=$?
-git stash pop -q
+git apply $OUT/patch.diff
 PYTHONPATH=$WT/src /venv/bin/python $DEMO > $OUT/demo_seeded.out 2>&1; S=$?
 PYTHONPATH=$WT/src /venv/bin/python -m pytest -q -p no:cacheprovider --timeout=900 -x --deselect tests/ebuild/test_eapi.py::TestEAPI::test_system_bash_supports_bundled_eapis --deselect tests/ebuild/test_profiles.py::TestProfileEapiDefault::test_top_level_with_feature --deselect tests/ebuild/test_repository.py::TestSlavedTree::test_license_groups --deselect tests/fs/test_ops.py::TestCopyFile::test_sym_perms tests > $OUT/tests.out 2>&1; T=$?
 echo "demo clean exit=$C seeded exit=$S tests exit=$T: $(tail -1 $OUT/tests.out)"
